@@ -201,11 +201,39 @@ func runParent(prop, tier string, seed int64, nOverride, procs int) int {
 		_ = json.Unmarshal(bz, &kf)
 	}
 	known := map[string]knownFinding{}
+	var knownPatterns []knownFinding
 	for _, f := range kf.Findings {
 		if f.Property == prop {
-			known[f.Signature] = f
+			if strings.Contains(f.Signature, "*") {
+				knownPatterns = append(knownPatterns, f)
+			} else {
+				known[f.Signature] = f
+			}
 		}
 	}
+	matchKnown := func(sig string) (knownFinding, bool) {
+		if f, ok := known[sig]; ok {
+			return f, true
+		}
+		for _, f := range knownPatterns {
+			// '*' matches any run of characters; everything else is literal
+			parts := strings.Split(f.Signature, "*")
+			rest, ok := sig, true
+			for i, p := range parts {
+				idx := strings.Index(rest, p)
+				if idx < 0 || (i == 0 && idx != 0) {
+					ok = false
+					break
+				}
+				rest = rest[idx+len(p):]
+			}
+			if ok && (rest == "" || strings.HasSuffix(f.Signature, "*")) {
+				return f, true
+			}
+		}
+		return knownFinding{}, false
+	}
+	knownPrinted := map[string]bool{}
 	bySig := map[string][]mon.Violation{}
 	for _, v := range st.Viol {
 		bySig[v.Sig] = append(bySig[v.Sig], v)
@@ -221,8 +249,11 @@ func runParent(prop, tier string, seed int64, nOverride, procs int) int {
 	os.MkdirAll(filepath.Join(verifDir(), "replays"), 0o755)
 	for _, s := range sigs {
 		v := bySig[s][0]
-		if f, ok := known[s]; ok {
-			fmt.Printf("KNOWN-FINDING: property=%s %s [%s] (%d occurrence(s); e.g. %s)\n", prop, f.What, s, len(bySig[s]), oneLine(trunc(v.Detail, 160)))
+		if f, ok := matchKnown(s); ok {
+			if !knownPrinted[f.Signature] {
+				fmt.Printf("KNOWN-FINDING: property=%s %s [%s] (%d occurrence(s) as %s; e.g. %s)\n", prop, f.What, f.Signature, len(bySig[s]), s, oneLine(trunc(v.Detail, 160)))
+				knownPrinted[f.Signature] = true
+			}
 			knownSeen++
 			continue
 		}
